@@ -98,7 +98,12 @@ def mirror_step(res, op):
 def run_mirror(case):
     res = [["frame", list(case["names"]), bool(case["typed"]), [list(r) for r in case["rows"]]]]
     for op in case["ops"]:
-        res.append(mirror_step(res, op))
+        if op[0] == "append":  # in-place: only the target frame changes
+            f = res[op[1]]
+            res[op[1]] = ["frame", f[1], f[2], f[3] + [list(op[2])]]
+            res.append(["val", None])
+        else:
+            res.append(mirror_step(res, op))
     return res
 
 
@@ -192,6 +197,15 @@ def run_impl(case):
                 else:
                     got = df[list(op[2])] if use_getitem else df.collect(list(op[2]), op[3])
                     out = ("val", tolist(got))
+            elif k == "append":
+                # A generator-backed frame that has not been read yet would see (or not see) the new row
+                # depending on when it is read; the statement does not say which, so such programs are
+                # out of scope: the generator avoids them and the oracle skips them.
+                if any(f[0] == "frame" and not isinstance(f[1]._rows, list) and not sp for f, sp in zip(frames, spent)):
+                    snapshots["ambiguous"] = True
+                df.append(tuple(op[2]))
+                out = ("val", None)
+                snapshots[si] = [list(r) for r in df._rows]
             elif k == "row":
                 out = ("val", list(df.row(op[2])))
             elif k == "len":
@@ -257,7 +271,7 @@ def valid_case(c):
                 return False
             k = op[0]
             ln = {"head": 3, "tail": 3, "slice": 4, "filter": 3, "take": 3, "query": 3, "select": 3, "distinct": 2,
-                  "add": 3, "batches": 3, "collect": 6, "row": 3, "len": 3}.get(k)
+                  "add": 3, "batches": 3, "collect": 6, "row": 3, "len": 3, "append": 3}.get(k)
             if ln is None or len(op) != ln:
                 return False
             if k in ("head", "tail") and (not isinstance(op[2], int) or op[2] < 0):
@@ -280,6 +294,8 @@ def valid_case(c):
                 return False
             if k in ("row", "len") and not isinstance(op[2], int):
                 return False
+            if k == "append" and not isinstance(op[2], list):
+                return False
             kinds.append("frame" if k in FRAME_OPS else "val")
             nres += 1
         return True
@@ -291,6 +307,8 @@ def check_case(ctx_or_none, case, mline_out=None):
     """Returns (clause or None, impl summary, disagreement or None). Raises InfraError on harness faults."""
     mirror = run_mirror(case)
     frames, lazy, spent, snapshots = run_impl(case)
+    if snapshots.pop("ambiguous", False):
+        return None, [["skipped", "append while an unread generator-backed frame exists"]], mirror
     impl_summary = []
     clause = None
     how = case.get("read", 0)
@@ -363,7 +381,10 @@ def evaluate(ctx, cases):
     mouts = ctx.model.batch([model_line(c) for c in cases])
     for c, mo in zip(cases, mouts):
         clause, impl, mirror = check_case(ctx, c)
-        compare_model(c, mirror, mo)
+        if clause is None:
+            # implementation = list spec here, so the Lean model (whose window arithmetic is regenerated from
+            # the source) must agree with both; a difference now can only be the wire or the driver
+            compare_model(c, mirror, mo)
         ctx.case(c, nontrivial=len(c["rows"]) >= 1 and len(c["ops"]) >= 1)
         for op in c["ops"]:
             ctx.hit("op:" + op[0])
@@ -397,7 +418,7 @@ def gen_op(rng, kinds, names_of, nrows_of, allow=None):
     names = names_of[s]
     w = len(names)
     k = rng.choice(allow or ["head", "tail", "slice", "filter", "take", "query", "select", "distinct", "add",
-                             "batches", "collect", "row", "len", "tail", "slice", "select", "distinct"])
+                             "batches", "collect", "row", "len", "tail", "slice", "select", "distinct", "append", "head"])
     if k in ("head", "tail"):
         return [k, s, rng.choice([0, 1, 2, n, n + 1, n + 2, 2 * n, 2 * n + 1, max(n - 1, 0), rng.randint(0, 2 * n + 3)])]
     if k == "slice":
@@ -439,6 +460,8 @@ def gen_op(rng, kinds, names_of, nrows_of, allow=None):
         return [k, s, cols, limit, "single" if single else "multi", rng.random() < 0.5]
     if k == "row":
         return [k, s, rng.randint(-n - 1, n)]
+    if k == "append":
+        return [k, s, [rng.choice(VALUES) for _ in range(w)]]
     return ["len", s, rng.randrange(3)]
 
 
@@ -451,7 +474,7 @@ def track(kinds, names_of, nrows_of, case, op):
     nrows_of.append(len(r[3]) if r[0] == "frame" else None)
 
 
-VALUES = [0, 1, -1, -2]  # -1 and -2 have equal hashes in CPython: rows that collide without being equal
+VALUES = [0, 1, -1, -2]  # (defined before gen_op uses it at call time) -1 and -2 have equal hashes in CPython: rows that collide without being equal
 
 
 def gen_case(rng, max_rows=6, max_cols=4, max_ops=4, big=False):
@@ -468,16 +491,20 @@ def gen_case(rng, max_rows=6, max_cols=4, max_ops=4, big=False):
     kinds, names_of, nrows_of = ["frame"], [case["names"]], [n]
     spent = [False]
     lazy = [case["lazy"]]
+    typed_of = [case["typed"]]
     for _ in range(rng.randint(1, max_ops)):
         for _try in range(8):
             op = gen_op(rng, kinds, names_of, nrows_of)
             srcs = [op[1]] + ([op[2]] if op[0] == "add" else [])
             if any(spent[s] for s in srcs):
                 continue  # a generator-backed frame that has been consumed is not read again
+            if op[0] == "append" and (typed_of[op[1]] or any(l and not sp for l, sp in zip(lazy, spent))):
+                continue  # append needs a materialised, names-only frame (typed frames validate dictionaries: C05)
             break
         else:
             break
         track(kinds, names_of, nrows_of, case, op)
+        typed_of.append(case["typed"] and op[0] != "select" and typed_of[op[1]])
         for s in srcs:
             if lazy[s]:
                 if op[0] in CONSUMES_LAZY_SOURCE:
